@@ -323,6 +323,10 @@ def build_config(spec):
         cfg['instructor_vars'] = list(spec['instructor_vars'])
     if spec.get('user_f'):
         cfg['user_functions'] = {'f': _user_f}
+        if spec['user_f'] == 'with-random':
+            # ... and author-declared RANDOM functions (sampled per evaluation): names with a meaning all the same
+            from mitxgraders import RandomFunction
+            cfg['user_functions'].update({'rf': RandomFunction(), 'rg': [_user_f, _user_f]})
     return cfg
 
 
@@ -955,7 +959,7 @@ NONINT = ['1.5', '7/2', 'pi', '-0.5', 'sqrt(2)', 'x', 'e', '2.0000001', '1/3', '
 COMPLEX = ['i', '1+i', '2*i', 'sqrt(-4)', 'j', 'x*i', '(1+i)^2', '3-2*j']
 VAR_CONSTANT = ['i', 'j', 'e', 'pi', 'infty']
 VAR_DECLARED = ['x', 'y']
-VAR_FUNCTION = ['sin', 'cos', 'exp', 'sqrt', 'abs', 'ln', 're', 'f']
+VAR_FUNCTION = ['sin', 'cos', 'exp', 'sqrt', 'abs', 'ln', 're', 'f', 'rf', 'rg']
 VAR_INVALID = ['2n', '_n', 'n+1', "n'a", 'n m', 'n.', '1', '-n', 'n*', 'n^2', '[n]', 'n(1)', "'", '$', 'n-']
 
 
@@ -1031,7 +1035,7 @@ def judge_errors(spec, rec):
     a = dict(au['a'])
     s = {'lo': list(a['lo']), 'hi': list(a['hi']), 'tree': a['tree'], 'tvar': a['var'], 'var': a['var']}
     full = {'seed': 11, 'eo': au['eo'], 'a': a, 's': s, 'vars': {k: list(v) for k, v in ERR_VARS.items()},
-            'samples': 2, 'tol': 1e-6, 'pos': spec['pos'], 'user_f': True}
+            'samples': 2, 'tol': 1e-6, 'pos': spec['pos'], 'user_f': 'with-random'}
     fault, field, text = spec['fault'], spec['field'], spec['text']
     expect = 'student-error'
     label = fault
